@@ -118,6 +118,100 @@ func exactSwapExactIn(ctx sdk.Context, k lpkeeper.Keeper, poolId uint64, baseFor
 	return out, steps
 }
 
+// exactSwapExactOut returns the exact input (rational, fee included) needed to take `amount` of the out-denom out of the
+// pool, or nil when the exact path runs out of ticks.
+func exactSwapExactOut(ctx sdk.Context, k lpkeeper.Keeper, poolId uint64, baseForQuote bool, amount sdkmath.Int, feeEnabled bool) (*big.Rat, int) {
+	p, found, _ := k.GetPool(ctx, poolId)
+	if !found {
+		return nil, 0
+	}
+	fee := new(big.Rat)
+	if feeEnabled {
+		fee = clRatOfDec(sdkmath.LegacyMustNewDecFromStr(p.FeeRate))
+	}
+	one := big.NewRat(1, 1)
+	oneMinusFee := new(big.Rat).Sub(one, fee)
+	P := clRatOfDec(sdkmath.LegacyMustNewDecFromStr(p.CurrentSqrtPrice))
+	L := clRatOfDec(sdkmath.LegacyMustNewDecFromStr(p.CurrentTickLiquidity))
+	var ticks []exactTick
+	for _, t := range k.GetAllInitializedTicksForPool(ctx, poolId) {
+		sp, err := lptypes.TickToSqrtPrice(t.TickIndex, p.TickParams)
+		if err != nil {
+			return nil, 0
+		}
+		ticks = append(ticks, exactTick{t.TickIndex, clRatOfDec(sp), clRatOfDec(sdkmath.LegacyMustNewDecFromStr(t.LiquidityNet))})
+	}
+	sort.Slice(ticks, func(i, j int) bool { return ticks[i].tick < ticks[j].tick })
+	var path []exactTick
+	if baseForQuote {
+		for i := len(ticks) - 1; i >= 0; i-- {
+			if ticks[i].tick <= p.CurrentTick {
+				path = append(path, ticks[i])
+			}
+		}
+	} else {
+		for _, t := range ticks {
+			if t.tick > p.CurrentTick {
+				path = append(path, t)
+			}
+		}
+	}
+	rem := new(big.Rat).SetInt(amount.BigInt())
+	in := new(big.Rat)
+	steps := 0
+	for _, t := range path {
+		if rem.Sign() <= 0 {
+			break
+		}
+		steps++
+		T := t.price
+		if L.Sign() > 0 && P.Cmp(T) != 0 {
+			if baseForQuote { // base in, quote out, price falls
+				maxOut := new(big.Rat).Mul(L, new(big.Rat).Sub(P, T))
+				if rem.Cmp(maxOut) >= 0 {
+					in.Add(in, new(big.Rat).Quo(new(big.Rat).Quo(maxOut, new(big.Rat).Mul(P, T)), oneMinusFee))
+					rem.Sub(rem, maxOut)
+					P = T
+				} else {
+					next := new(big.Rat).Sub(P, new(big.Rat).Quo(rem, L))
+					in.Add(in, new(big.Rat).Quo(new(big.Rat).Quo(new(big.Rat).Mul(L, new(big.Rat).Sub(P, next)), new(big.Rat).Mul(P, next)), oneMinusFee))
+					rem.SetInt64(0)
+					break
+				}
+			} else { // quote in, base out, price rises
+				maxOut := new(big.Rat).Quo(new(big.Rat).Mul(L, new(big.Rat).Sub(T, P)), new(big.Rat).Mul(P, T))
+				if rem.Cmp(maxOut) >= 0 {
+					in.Add(in, new(big.Rat).Quo(new(big.Rat).Mul(L, new(big.Rat).Sub(T, P)), oneMinusFee))
+					rem.Sub(rem, maxOut)
+					P = T
+				} else {
+					den := new(big.Rat).Sub(L, new(big.Rat).Mul(rem, P))
+					if den.Sign() <= 0 {
+						return nil, steps
+					}
+					next := new(big.Rat).Quo(new(big.Rat).Mul(L, P), den)
+					in.Add(in, new(big.Rat).Quo(new(big.Rat).Mul(L, new(big.Rat).Sub(next, P)), oneMinusFee))
+					rem.SetInt64(0)
+					break
+				}
+			}
+		} else {
+			P = T
+		}
+		if baseForQuote {
+			L = new(big.Rat).Sub(L, t.net)
+		} else {
+			L = new(big.Rat).Add(L, t.net)
+		}
+	}
+	if rem.Sign() > 0 {
+		return nil, steps
+	}
+	return in, steps
+}
+
+func ratFloorInt(r *big.Rat) *big.Int { return new(big.Int).Quo(r.Num(), r.Denom()) }
+
 func ratCeilInt(r *big.Rat) *big.Int {
 	q := new(big.Int).Quo(r.Num(), r.Denom())
 	if new(big.Rat).SetInt(q).Cmp(r) < 0 {
